@@ -142,3 +142,54 @@ let () =
           | PsOrig (f, i) -> Printf.sprintf "%d.%d.o" (int_of_nat f) (int_of_nat i)
           | PsCopy (f, i, n) -> Printf.sprintf "%d.%d.c%d" (int_of_nat f) (int_of_nat i) (int_of_nat n)) out)
     | _ -> "?args")
+
+(* unreferenced-resource removal (Struct/ResPrune.v): same line as harness/drv_resprune.cc *)
+let () =
+  register "rprune" (fun args -> match args with
+    | [root; nodes] ->
+      let tbl = Hashtbl.create 32 in
+      List.iter (fun e ->
+          let i = String.index e '=' in
+          let id = int_of_string (String.sub e 0 i) in
+          match String.split_on_char ':' (String.sub e (i + 1) (String.length e - i - 1)) with
+          | [flags; uses; fonts; xobjs] -> Hashtbl.replace tbl id (flags, split ',' uses, split ',' fonts, split ',' xobjs)
+          | _ -> failwith "node") (split ';' nodes);
+      let pair s = let k = String.index s '.' in (int_of_string (String.sub s 0 k), int_of_string (String.sub s (k + 1) (String.length s - k - 1))) in
+      let rec build id =
+        let (flags, uses, fonts, xobjs) = Hashtbl.find tbl id in
+        let has c = String.contains flags c in
+        RpnNode (n_of_int id, has 'f', has 'b',
+                 List.map (fun u -> let (a, b) = pair u in (n_of_int a, n_of_int b)) uses,
+                 (has 'r' || has 'R' || has 'h'),
+                 List.map (fun k -> (n_of_int (int_of_string k), n_of_int 3)) fonts,
+                 List.map (fun e -> let (k, c) = pair e in (n_of_int k, build c)) xobjs) in
+      let out = ref [] in
+      let rec dump n =
+        let ks l = match l with [] -> "-" | _ -> String.concat "," (List.map (fun (k, _) -> string_of_int (int_of_n k)) l) in
+        out := (int_of_n (rpn_id n), ks (rpn_fonts n) ^ ":" ^ ks (rpn_xobjs n)) :: !out;
+        List.iter (fun (_, c) -> dump c) (rpn_xobjs n) in
+      dump (rpn_run (build (int_of_string root)));
+      String.concat ";" (List.map (fun (i, s) -> string_of_int i ^ "=" ^ s) (List.sort compare !out))
+    | _ -> "?args")
+
+(* page labels (Struct/PageLabels.v): same line as harness/drv_plabels.cc *)
+let () =
+  register "plabels" (fun args -> match args with
+    | [trees; calls] ->
+      let optn s = if s = "0" then None else Some (n_of_int (int_of_string s)) in
+      let lab_of e = match String.split_on_char ':' e with
+        | [k; s; p; st] -> (z_of_int (int_of_string k),
+                            { plb_S = optn s; plb_P = optn p;
+                              plb_St = (if st = "-" then PlbStNone else if st = "x" then PlbStOther else PlbStInt (z_of_int (int_of_string st))) })
+        | _ -> failwith "label" in
+      let ts = Array.of_list (List.map (fun t -> if t = "-" then None else Some (List.map lab_of (String.split_on_char ',' t)))
+                                (String.split_on_char '/' trees)) in
+      let acc = List.fold_left (fun acc c -> match List.map int_of_string (String.split_on_char '.' c) with
+          | [f; s; e; n] -> plb_labels_for_range ts.(f) (z_of_int s) (z_of_int e) (z_of_int n) acc
+          | _ -> failwith "call") [] (String.split_on_char ';' calls) in
+      let on o = match o with None -> "0" | Some x -> string_of_int (int_of_n x) in
+      (match List.rev acc with
+       | [] -> "-"
+       | l -> String.concat "," (List.map (fun (i, l) -> Printf.sprintf "%d:%s:%s:%s" (int_of_z i) (on l.plb_S) (on l.plb_P)
+                                             (match l.plb_St with PlbStInt z -> string_of_int (int_of_z z) | _ -> "-")) l))
+    | _ -> "?args")
